@@ -66,6 +66,8 @@ def _pt(s):
     return Ty(name), rest
   if name in ('opt', 'list', 'set', 'dict', 'tuple'):
     return Ty(name, args), rest
+  if name == 'rec' and len(args) == 1:
+    return Ty('rec', (args[0].args[0],)), rest
   if name and name[0].isupper() and not args:
     return Ty('U', (name,)), rest
   raise ValueError('unknown type %r' % s)
